@@ -258,8 +258,8 @@ type Reader struct {
 	// ppOpen: a PUSH_PROMISE without END_HEADERS was accepted. RFC 7540 §6.6 requires CONTINUATION to
 	// follow; the property statement only speaks of HEADERS/CONTINUATION interleavings, so from here on
 	// this model declares the expectation Unspecified (callers then only check the universal invariants).
-	ppOpen bool
-	dec    *hpack.Decoder
+	ppOpen  bool
+	history [][]byte // header blocks decoded so far (HPACK state = replay of them)
 }
 
 // NewReader: limit is the value given to the reader's "set max read frame size";
@@ -268,7 +268,7 @@ func NewReader(limit uint32) *Reader {
 	if limit > MaxFrameSize {
 		limit = MaxFrameSize
 	}
-	return &Reader{limit: limit, dec: hpack.NewDecoder(4096, nil)}
+	return &Reader{limit: limit}
 }
 
 func (r *Reader) Limit() uint32  { return r.limit }
@@ -544,8 +544,11 @@ func (r *Reader) NextMeta(in []byte) (v Verdict, unit bool) {
 				c.add(e.Conn, e.Code, why)
 			}
 			// a block that already fails to decode may be reported first
-			if _, err := hpack.NewDecoder(4096, nil).DecodeFull(block); err != nil && !strings.Contains(err.Error(), "truncated") {
+			if hfs, err := r.decode(block); err != nil && !strings.Contains(err.Error(), "truncated") {
 				c.add(true, CodeCompression, "§4.3: header block does not decode")
+				if why := MalformedList(hfs); why != "" {
+					c.soft(false, CodeProtocol, "§8.1.2: "+why)
+				}
 			}
 			c.Consumed = 0
 			return c, true
@@ -555,17 +558,19 @@ func (r *Reader) NextMeta(in []byte) (v Verdict, unit bool) {
 		r.Accepted(c.Fields)
 	}
 	out := Verdict{Stream: head.Stream, Consumed: consumed, Errs: soft}
-	hfs, err := r.dec.DecodeFull(block)
+	hfs, err := r.decode(block)
 	if err != nil {
-		out.Errs = nil
 		out.connDefect(CodeCompression, "§4.3: header block does not decode: "+err.Error())
+		if why := MalformedList(hfs); why != "" {
+			// fields before the undecodable part are already malformed: reporting that first is admissible
+			out.soft(false, CodeProtocol, "§8.1.2: "+why)
+		}
 		return out, true
 	}
+	r.history = append(r.history, block)
 	head.Meta = true
 	head.Data = nil
-	for _, h := range hfs {
-		head.HeaderList = append(head.HeaderList, h2wire.HF{Name: h.Name, Value: h.Value})
-	}
+	head.HeaderList = hfs
 	out.Accept = true
 	out.Fields = &head
 	if why := MalformedList(head.HeaderList); why != "" {
@@ -573,6 +578,28 @@ func (r *Reader) NextMeta(in []byte) (v Verdict, unit bool) {
 		out.soft(false, CodeProtocol, "§8.1.2: "+why)
 	}
 	return out, true
+}
+
+// decode decodes block in the HPACK context left by the blocks accepted so far; on error it returns the
+// fields emitted before the error.
+func (r *Reader) decode(block []byte) ([]h2wire.HF, error) {
+	d := hpack.NewDecoder(4096, nil)
+	// A reader bounds the strings it is willing to decode by its header list limit; the documented default of
+	// the reader under test is 16 MB. A string whose declared length exceeds it may be refused (COMPRESSION_ERROR)
+	// as soon as the length is known, i.e. before the block is complete.
+	d.SetMaxStringLength(16 << 20)
+	for _, b := range r.history {
+		d.SetEmitFunc(func(hpack.HeaderField) {})
+		d.Write(b)
+		d.Close()
+	}
+	var out []h2wire.HF
+	d.SetEmitFunc(func(h hpack.HeaderField) { out = append(out, h2wire.HF{Name: h.Name, Value: h.Value}) })
+	_, err := d.Write(block)
+	if err == nil {
+		err = d.Close()
+	}
+	return out, err
 }
 
 // MalformedList says why a decoded field list is not a plainly well-formed HTTP/2 header list
